@@ -74,9 +74,13 @@ impl crate::graph::GraphRunner for MTGraph {
             let th = std::thread::Builder::new()
                 .name(b.block_name().to_string())
                 .spawn(move || -> Result<BlockStats> {
+                    #[cfg(rustradio_verif)]
+                    crate::verif::thread_start(b.block_name());
                     let idle_sleep = std::time::Duration::from_millis(1);
                     let mut stats = BlockStats::default();
                     while !cancel_token.is_canceled() {
+                        #[cfg(rustradio_verif)]
+                        crate::verif::named_point("loop");
                         let st = Instant::now();
                         stats.work_calls += 1;
                         let ret = match b.work() {
@@ -87,6 +91,8 @@ impl crate::graph::GraphRunner for MTGraph {
                             }
                         };
                         stats.elapsed += st.elapsed();
+                        #[cfg(rustradio_verif)]
+                        crate::verif::emit(format!("\"ev\":\"mt_work\",\"ret\":\"{ret:?}\""));
                         match ret {
                             BlockRet::Again => {}
                             BlockRet::EOF => {
@@ -94,6 +100,8 @@ impl crate::graph::GraphRunner for MTGraph {
                             }
                             BlockRet::WaitForStream(stream, need) => {
                                 let eof = stream.wait(need);
+                                #[cfg(rustradio_verif)]
+                                crate::verif::emit(format!("\"ev\":\"mt_wait\",\"m\":{},\"need\":{need},\"never\":{eof}", stream.verif_id()));
                                 drop(ret);
                                 if b.eof() || eof {
                                     break;
@@ -112,6 +120,8 @@ impl crate::graph::GraphRunner for MTGraph {
                         }
                     }
                     info!("Block {} done", b.block_name());
+                    #[cfg(rustradio_verif)]
+                    crate::verif::emit("\"ev\":\"mt_done\"".to_string());
                     Ok(stats)
                 });
             let th = match th {
@@ -122,12 +132,16 @@ impl crate::graph::GraphRunner for MTGraph {
                 }
                 Ok(x) => x,
             };
+            #[cfg(rustradio_verif)]
+            crate::verif::await_registered(th.thread().id());
             threads.push(th);
         }
         debug!("Joining threads");
         for (n, th) in threads.into_iter().rev().enumerate() {
             let name = th.thread().name().unwrap().to_string();
             debug!("Waiting for {}", name);
+            #[cfg(rustradio_verif)]
+            crate::verif::join_point(th.thread().id());
             let j = th
                 .join()
                 .expect("joining thread")
